@@ -175,3 +175,34 @@ Proof.
     apply sumq_map_ext. intros; ring.
 Qed.
 End Inst.
+
+(* ---- with PhyClone's own schedule and resampling criterion: no premise about sampler, proposal or criterion is left ---- *)
+From PV Require Import Model.CsmcCases Proofs.CsmcEss.
+
+Section PhyClone.
+Variable n : nat.
+Hypothesis n_pos : (1 <= n)%nat.
+Variable on : bool.
+Variable gam : list (list bool) -> Qc.
+Variable gt : list nat -> list place -> Qc.
+Hypothesis gt_pos : forall sg p, 0 < gt sg p.
+Hypothesis gt_final : forall sg path, In sg (gorders n) -> In path (gpaths n on sg) ->
+  gt sg (rev path) = gam (gdec n sg (rev path)) * gcden n sg (gdec n sg (rev path)).
+Variable thr : Q.          (* resampling threshold on the relative effective sample size *)
+Variable N : nat.          (* number of particles besides the retained one *)
+
+Theorem phyclone_update_invariant_bootstrap (po : Qc) : po < 1 -> (on = true -> 0 < po) -> (on = false -> po = 0) ->
+  invariant (wlist gam (forests n on))
+    (pg_update (gorders n) (gcden n) (gsup on) (q_boot po) gt (gdec n) (genc n on) (ess_rs thr) N (schedule n)).
+Proof.
+  intros H1 H2 H3. apply (pg_update_invariant_bootstrap n on gam gt gt_pos gt_final (ess_rs thr) (ess_rs_symmetric thr) N (schedule n) (schedule_count n n_pos) po H1 H2 H3).
+Qed.
+Theorem phyclone_update_invariant_fully_adapted :
+  invariant (wlist gam (forests n on))
+    (pg_update (gorders n) (gcden n) (gsup on) (q_full on gt) gt (gdec n) (genc n on) (ess_rs thr) N (schedule n)).
+Proof. apply (pg_update_invariant_fully_adapted n on gam gt gt_pos gt_final (ess_rs thr) (ess_rs_symmetric thr) N (schedule n) (schedule_count n n_pos)). Qed.
+Theorem phyclone_update_invariant_semi_adapted :
+  invariant (wlist gam (forests n on))
+    (pg_update (gorders n) (gcden n) (gsup on) (q_semi on gt) gt (gdec n) (genc n on) (ess_rs thr) N (schedule n)).
+Proof. apply (pg_update_invariant_semi_adapted n on gam gt gt_pos gt_final (ess_rs thr) (ess_rs_symmetric thr) N (schedule n) (schedule_count n n_pos)). Qed.
+End PhyClone.
